@@ -24,6 +24,11 @@ func tunnelLevelModel(frames []RawFrame) (idx int, unknown bool) {
 			lastSeen, seenAny = f.ID, true
 			continue
 		}
+		if !seenAny && f.ID < 0 {
+			// a frame for a negative id before any stream was opened: the statement is silent (the server
+			// files it under "ids it has finished with"; ending the tunnel would be just as defensible)
+			return i, true
+		}
 		if !seenAny || f.ID > lastSeen {
 			return i, false
 		}
